@@ -104,6 +104,13 @@ class ExprGen:
         # aliasing class-level (shared) attributes is the D9 pattern; it is exercised in a third of the histories so that
         # the others keep their full oracles (incl. the fresh-copy differential) undisturbed by that known finding
         self.alias_shared = ch.chance("e.alias_shared", 1, 3)
+        # argument-less union-typed fields are generated as class-level attributes too: .on() mutates the shared object (D25,
+        # same root as D9).  In a third of the histories they are used freely; in the others every such attribute is used at
+        # most once per operation and always with the same set of type names, so that replace-per-type-name semantics of
+        # .on() give the right document and the full oracles stay on
+        self.free_shared_unions = ch.chance("e.free_shared_unions", 1, 3)
+        self.union_on_sets: Dict[Tuple[str, str], List[str]] = {}
+        self.union_used_in_op: set = set()
 
     def value_for(self, t, depth=0):
         """A value spec for GraphQL input type t: ("int", 3) / ("enum", "Color", "RED") / ("input", "Name", {...}) / ("list", [...])."""
@@ -190,14 +197,29 @@ class ExprGen:
                 if not e["sub"] and not e["on"]:
                     return None
             else:  # union
+                shared = not field.args          # generated as a class-level attribute (one object for every use)
+                key = (parent_type.name, fname)
+                if shared:
+                    e["how"] = "uattr"
+                    if not self.free_shared_unions:
+                        if key in self.union_used_in_op:
+                            return None
+                        self.union_used_in_op.add(key)
+                fixed = self.union_on_sets.get(key) if (shared and not self.free_shared_unions) else None
                 for pt in named.types:
-                    if ch.chance("e.on", 2, 3):
+                    if (pt.name in fixed) if fixed is not None else ch.chance("e.on", 2, 3):
                         s = self.selection(pt, depth - 1)
                         if s:
                             e["on"][pt.name] = s
+                        elif fixed is not None:
+                            return None
                 if not e["on"]:
                     return None
+                if shared and not self.free_shared_unions and fixed is None:
+                    self.union_on_sets[key] = sorted(e["on"])
         if ch.chance("e.alias", 1, 4) and (e["how"] == "method" or self.alias_shared):
+            if e["how"] == "uattr" and not self.free_shared_unions:
+                return e
             self.counter += 1
             e["alias"] = "%s%d" % (ch.pick("e.aliasn", ["al", "renamed_", "Xy"]), self.counter)
         return e
@@ -224,6 +246,7 @@ class ExprGen:
 
     def operation(self, kind: str, i: int) -> Optional[dict]:
         ch = self.ch
+        self.union_used_in_op = set()
         root = self.schema.query_type if kind == "query" else self.schema.mutation_type
         if root is None:
             return None
@@ -319,7 +342,7 @@ def interpret(e: dict, pkg, schema, snake: bool, root_kind: Optional[str] = None
     if attr is None:
         raise Unresolvable("%s.%s" % (holder.__name__, e["gql"]))
     member = getattr(holder, attr)
-    if e["how"] == "attr" and not callable(member):
+    if e["how"] in ("attr", "uattr") and not callable(member):
         obj = member                                   # class-level shared object
     else:
         if not callable(member):
@@ -417,7 +440,7 @@ def check_document(op: dict, query_text: str, variables: Any, opname_sent: Any, 
             sent_alias = f.alias.value if f.alias else None
             if sent_alias != e["alias"]:
                 V("alias-mismatch", "%s: sent with alias %r, the expression says %r" % (w, sent_alias, e["alias"]),
-                  shared_leaf=(e["how"] == "attr"))
+                  shared_leaf=(e["how"] in ("attr", "uattr")))
             gfield = parent_type.fields.get(e["gql"]) if hasattr(parent_type, "fields") else None
             want_args = {an: vs for an, vs in e["args"].items() if vs[0] != "none"}
             sent_args = {a.name.value: a.value for a in (f.arguments or ())}
@@ -595,6 +618,7 @@ def run_case(case, ch: Choices) -> RunResult:
 
         last_built: List[Any] = [None]
         built_ops: List[Tuple[dict, list]] = []     # (expression, the live top-level objects built for it)
+        shared_uses: Dict[Tuple[str, str], int] = {}
         eg = ExprGen(ch, schema, snake)
         client = make_client(live)
         nops = p.get("nops") or (2 + ch.draw("h.nops", 11))
@@ -604,10 +628,14 @@ def run_case(case, ch: Choices) -> RunResult:
         sent_docs = []
         for i in range(nops):
             prebuilt = None
-            if built_ops and ch.chance("h.reuse_objects", 1, 5):
+            reusable = built_ops if eg.free_shared_unions else \
+                [bo for bo in built_ops if not any(e["how"] == "uattr" for e in _all_nodes(bo[0]))]
+            if reusable and ch.chance("h.reuse_objects", 1, 5):
                 # send the very objects of an earlier operation again (a user keeps a built selection and re-sends it),
-                # with the top-level fields rotated so that they sit at other positions than before
-                src_op, objs = built_ops[ch.draw("h.whichobj", len(built_ops))]
+                # with the top-level fields rotated so that they sit at other positions than before.  (Outside the
+                # free-shared-unions histories, trees holding a shared union attribute are not re-sent: a later .on() on
+                # that attribute legitimately shows in them, D25.)
+                src_op, objs = reusable[ch.draw("h.whichobj", len(reusable))]
                 rot = ch.draw("h.rot", len(objs))
                 idxs = list(range(len(objs)))[rot:] + list(range(len(objs)))[:rot]
                 if ch.chance("h.drop", 1, 3) and len(idxs) > 1:
@@ -637,7 +665,23 @@ def run_case(case, ch: Choices) -> RunResult:
             history.append(op)
             vio_before = len(res.violations)
 
-            def V(cls, detail, **key):
+            # D25: .on() on a class-level union attribute changes the one shared object.  An operation is affected when such
+            # an attribute was already used earlier in the history, or sits at two positions of this operation
+            occ: Dict[Tuple[str, str], int] = {}
+            for e_ in _all_nodes(op):
+                if e_["how"] == "uattr":
+                    occ[(e_["parent"], e_["gql"])] = occ.get((e_["parent"], e_["gql"]), 0) + 1
+            tainted = eg.free_shared_unions and any(shared_uses.get(k_, 0) > 0 or n_ > 1 for k_, n_ in occ.items())
+            for k_, n_ in occ.items():
+                shared_uses[k_] = shared_uses.get(k_, 0) + n_
+            if occ:
+                res.bump("probe.shared_union_attribute_used")
+            if tainted:
+                res.bump("probe.shared_union_attribute_reused_freely")
+
+            def V(cls, detail, _tainted=tainted, **key):
+                if _tainted:
+                    key["shared_union_attr"] = True
                 res.violations.append(Violation(cls, "operation #%d: %s" % (len(history) - 1, detail), dict(key)))
             if exc is not None:
                 V("builder-raised", "sending the expression raised %s: %s" % (type(exc).__name__, str(exc)[:300]), exc=type(exc).__name__)
